@@ -501,3 +501,304 @@ theorem find_power {qs : QuantSpec} {q : Queue} {infos : List SectorInfo} {gs : 
   · exact key (·.fee) (·.fee) (fun g hg => (a1 g hg).2.2.1)
 
 end BA.Sector
+
+namespace BA.Sector
+open BA BA.NatSet
+
+/-! ### `reschedule_as_faults` -/
+
+theorem rescheduleFaultGroups_spec (newQ : Int) :
+    ∀ (gs : List Group) (q q2 : Queue) (secs : List Nat) (expiring resched : PowerPair) (fee : Int),
+    QNodup q → (∀ g ∈ gs, EntryNodup g.es) →
+    rescheduleFaultGroups newQ q gs = .ok (q2, secs, expiring, resched, fee) →
+    QNodup q2 ∧ resched + expiring = groupsPower gs := by
+  intro gs
+  induction gs with
+  | nil =>
+    intro q q2 secs expiring resched fee hq _ h
+    simp only [rescheduleFaultGroups, Except.ok.injEq, Prod.mk.injEq] at h
+    obtain ⟨rfl, _, rfl, rfl, _⟩ := h
+    exact ⟨hq, by ext <;> simp [groupsPower]⟩
+  | cons g rest ih =>
+    intro q q2 secs expiring resched fee hq hg h
+    unfold rescheduleFaultGroups at h
+    simp only at h
+    have hge := hg g (by simp)
+    have hes' : EntryNodup (if g.epoch ≤ newQ then
+        { g.es with active := g.es.active - g.power, faulty := g.es.faulty + g.power }
+      else
+        { g.es with onTime := diff g.es.onTime (ofList g.sectors), pledge := g.es.pledge - g.pledge,
+                    active := g.es.active - g.power, fee := g.es.fee - g.fee }) := by
+      by_cases hc : g.epoch ≤ newQ
+      · simp only [hc, if_true]; exact hge
+      · simp only [hc, if_false]; exact ⟨nodup_diff hge.1, hge.2⟩
+    cases hm : mustUpdateOrDelete q g.epoch (if g.epoch ≤ newQ then
+        { g.es with active := g.es.active - g.power, faulty := g.es.faulty + g.power }
+      else
+        { g.es with onTime := diff g.es.onTime (ofList g.sectors), pledge := g.es.pledge - g.pledge,
+                    active := g.es.active - g.power, fee := g.es.fee - g.fee }) with
+    | error e => simp [hm] at h
+    | ok q1 =>
+      simp only [hm] at h
+      have hq1 := mustUpdateOrDelete_nodup hq hes' hm
+      split at h
+      · simp at h
+      · cases hr : rescheduleFaultGroups newQ q1 rest with
+        | error e => simp [hr] at h
+        | ok x =>
+          obtain ⟨q3, secs3, exp3, res3, fee3⟩ := x
+          simp only [hr] at h
+          obtain ⟨i1, i2⟩ := ih q1 q3 secs3 exp3 res3 fee3 hq1
+            (fun g' hg' => hg g' (List.mem_cons_of_mem _ hg')) hr
+          have e1 := congrArg PowerPair.raw i2
+          have e2 := congrArg PowerPair.qa i2
+          simp only [PowerPair.add_raw, PowerPair.add_qa, groupsPower] at e1 e2
+          by_cases hc : g.epoch ≤ newQ
+          · simp only [hc, decide_true, Bool.not_true, Bool.false_eq_true, if_false, Except.ok.injEq,
+              Prod.mk.injEq] at h
+            obtain ⟨rfl, _, rfl, rfl, _⟩ := h
+            refine ⟨i1, ?_⟩
+            ext <;> simp [groupsPower] <;> omega
+          · simp only [hc, decide_false, Bool.not_false, if_true, Except.ok.injEq,
+              Prod.mk.injEq] at h
+            obtain ⟨rfl, _, rfl, rfl, _⟩ := h
+            refine ⟨i1, ?_⟩
+            ext <;> simp [groupsPower] <;> omega
+
+/-- **`reschedule_as_faults` returns the power of the given sectors** (distinct numbers) and keeps
+    the entries duplicate-free -/
+theorem rescheduleAsFaults_spec {qs : QuantSpec} {q q' : Queue} {fe : Int} {infos : List SectorInfo}
+    {nf : PowerPair} (hq : QNodup q) (hn : (nums infos).Nodup)
+    (h : rescheduleAsFaults qs q fe infos = .ok (q', nf)) : QNodup q' ∧ nf = sumPow infos := by
+  unfold rescheduleAsFaults at h
+  cases hf : findSectorsByExpiration qs q infos with
+  | error e => simp [hf] at h
+  | ok gs =>
+    simp only [hf] at h
+    obtain ⟨a1, _⟩ := find_spec (fun _ => 0) hq hf
+    obtain ⟨b1, _, _⟩ := find_power hq hn hf
+    cases hr : rescheduleFaultGroups (qs.quantizeUp fe) q gs with
+    | error e => simp [hr] at h
+    | ok x =>
+      obtain ⟨q1, secs, expiring, resched, fee⟩ := x
+      simp only [hr] at h
+      obtain ⟨c1, c2⟩ := rescheduleFaultGroups_spec _ gs q q1 secs expiring resched fee hq
+        (fun g hg => (a1 g hg).2.2.2.2.1) hr
+      by_cases hs : secs.isEmpty = true
+      · simp only [hs, if_true, Except.ok.injEq, Prod.mk.injEq] at h
+        obtain ⟨rfl, rfl⟩ := h
+        exact ⟨c1, by rw [c2, b1]⟩
+      · simp only [hs, Bool.false_eq_true, if_false] at h
+        cases ha : qadd qs q1 fe [] (ofList secs) PowerPair.zero resched 0 fee with
+        | error e => simp [ha] at h
+        | ok q2 =>
+          simp only [ha, Except.ok.injEq, Prod.mk.injEq] at h
+          obtain ⟨rfl, rfl⟩ := h
+          exact ⟨qadd_nodup c1 (by simp) (nodup_ofList _) ha, by rw [c2, b1]⟩
+
+/-! ### `reschedule_recovered` -/
+
+theorem recoverEntry_spec (m : Table) {es : ExpSet} {rem : NatSet} (hes : EntryNodup es)
+    (hr : rem.Nodup) :
+    EntryNodup (recoverEntry m es rem).1 ∧ (recoverEntry m es rem).2.1.Nodup ∧
+    (recoverEntry m es rem).2.2.2.raw + sumBy (tw m (·.raw)) (recoverEntry m es rem).2.1
+      = sumBy (tw m (·.raw)) rem ∧
+    (recoverEntry m es rem).2.2.2.qa + sumBy (tw m (·.qa)) (recoverEntry m es rem).2.1
+      = sumBy (tw m (·.qa)) rem := by
+  have hr1 : (rem.filter (fun u => !decide (u ∈ es.onTime))).Nodup := List.Pairwise.filter _ hr
+  have s1 := fun W => hit_split W hes.1 hr
+  have s2 := fun W => hit_split W hes.2 hr1
+  have r1 := s1 (tw m (·.raw)); have r2 := s2 (tw m (·.raw))
+  have a1 := s1 (tw m (·.qa)); have a2 := s2 (tw m (·.qa))
+  unfold recoverEntry
+  refine ⟨⟨hes.1, nodup_diff hes.2⟩, List.Pairwise.filter _ hr1, ?_, ?_⟩
+  · simp only [PowerPair.add_raw, sumPow_raw, sumBy_lookupInfos]; omega
+  · simp only [PowerPair.add_qa, sumPow_qa, sumBy_lookupInfos]; omega
+
+theorem recoverTraverse_spec (m : Table) :
+    ∀ (q q' : Queue) (rem rem' : NatSet) (resched : List SectorInfo) (pow : PowerPair),
+    QNodup q → rem.Nodup →
+    recoverTraverse m q rem = .ok (q', rem', resched, pow) →
+    QNodup q' ∧
+    pow.raw + sumBy (tw m (·.raw)) rem' = sumBy (tw m (·.raw)) rem ∧
+    pow.qa + sumBy (tw m (·.qa)) rem' = sumBy (tw m (·.qa)) rem := by
+  intro q
+  induction q with
+  | nil =>
+    intro q' rem rem' resched pow hq hr h
+    simp only [recoverTraverse, Except.ok.injEq, Prod.mk.injEq] at h
+    obtain ⟨rfl, rfl, _, rfl⟩ := h
+    exact ⟨hq, by simp, by simp⟩
+  | cons hd rest ih =>
+    intro q' rem rem' resched pow hq hr h
+    obtain ⟨e, es⟩ := hd
+    have hq' : QNodup rest := fun e' es' h' => hq e' es' (List.mem_cons_of_mem _ h')
+    have hes : EntryNodup es := hq e es (by simp)
+    obtain ⟨g1, g2, g3, g4⟩ := recoverEntry_spec m hes hr
+    unfold recoverTraverse at h
+    cases hre : recoverEntry m es rem with
+    | mk es' x =>
+      obtain ⟨rem2, earlyInfos, recovered⟩ := x
+      rw [hre] at g1 g2 g3 g4
+      simp only at g1 g2 g3 g4
+      simp only [hre] at h
+      cases hv : es'.validate with
+      | error err => simp [hv] at h
+      | ok u =>
+        cases u
+        simp only [hv] at h
+        have hcons : ∀ (qq : Queue), QNodup qq → QNodup (if es'.isEmpty then qq else (e, es') :: qq) := by
+          intro qq hqq
+          by_cases hem : es'.isEmpty = true
+          · simp only [hem, if_true]; exact hqq
+          · simp only [hem, Bool.false_eq_true, if_false]
+            intro e' es'' h'
+            rcases List.mem_cons.mp h' with h' | h'
+            · cases h'; exact g1
+            · exact hqq e' es'' h'
+        by_cases hem2 : rem2.isEmpty = true
+        · simp only [hem2, if_true, Except.ok.injEq, Prod.mk.injEq] at h
+          obtain ⟨rfl, rfl, _, rfl⟩ := h
+          exact ⟨hcons _ hq', g3, g4⟩
+        · simp only [hem2, Bool.false_eq_true, if_false] at h
+          cases hrec : recoverTraverse m rest rem2 with
+          | error err => simp [hrec] at h
+          | ok y =>
+            obtain ⟨q3, rem3, res3, pow3⟩ := y
+            simp only [hrec, Except.ok.injEq, Prod.mk.injEq] at h
+            obtain ⟨rfl, rfl, _, rfl⟩ := h
+            obtain ⟨i1, i2, i3⟩ := ih q3 rem2 rem3 res3 pow3 hq' g2 hrec
+            refine ⟨hcons _ i1, ?_, ?_⟩
+            · simp only [PowerPair.add_raw]; omega
+            · simp only [PowerPair.add_qa]; omega
+
+/-- **`reschedule_recovered` returns the power of the given sectors** (distinct numbers) -/
+theorem rescheduleRecovered_spec {qs : QuantSpec} {q q' : Queue} {infos : List SectorInfo}
+    {pw : PowerPair} (hq : QNodup q) (hn : (nums infos).Nodup)
+    (h : rescheduleRecovered qs q infos = .ok (q', pw)) : QNodup q' ∧ pw = sumPow infos := by
+  unfold rescheduleRecovered at h
+  simp only at h
+  cases hr : recoverTraverse (infoMap infos) q (ofList (nums infos)) with
+  | error e => simp [hr] at h
+  | ok x =>
+    obtain ⟨q1, rem, resched, pow⟩ := x
+    simp only [hr] at h
+    obtain ⟨a1, a2, a3⟩ := recoverTraverse_spec (infoMap infos) q q1 _ rem
+      resched pow hq (nodup_ofList _) hr
+    by_cases hre : rem.isEmpty = true
+    · simp only [hre, Bool.not_true, Bool.false_eq_true, if_false] at h
+      have : rem = [] := by cases hs : rem <;> simp_all
+      subst this
+      cases ha : addActiveSectors qs q1 resched with
+      | error e => simp [ha] at h
+      | ok y =>
+        obtain ⟨q2, b, c, d, f⟩ := y
+        simp only [ha, Except.ok.injEq, Prod.mk.injEq] at h
+        obtain ⟨rfl, rfl⟩ := h
+        obtain ⟨hg, _⟩ := addActiveSectors_ok ha
+        refine ⟨addGroups_nodup a1 hg, ?_⟩
+        rw [ofList_eq_self hn] at a2 a3
+        rw [sumBy_infoMap _ hn] at a2 a3
+        ext
+        · simp at a2 ⊢; omega
+        · simp at a3 ⊢; omega
+    · simp [hre] at h
+
+/-! ### `reschedule_all_as_faults` keeps the entries duplicate-free -/
+
+theorem collectAllFaults_nodup (faultQ : Int) :
+    ∀ (q : Queue) (muts : List (Int × ExpSet)) (eps : List Int) (secs : NatSet) (pow : PowerPair)
+      (fee : Int), QNodup q → collectAllFaults faultQ q = .ok (muts, eps, secs, pow, fee) →
+    (∀ e es, (e, es) ∈ muts → EntryNodup es) ∧ secs.Nodup := by
+  intro q
+  induction q with
+  | nil =>
+    intro muts eps secs pow fee _ h
+    simp only [collectAllFaults, Except.ok.injEq, Prod.mk.injEq] at h
+    obtain ⟨rfl, _, rfl, _⟩ := h
+    exact ⟨by simp, by simp⟩
+  | cons hd rest ih =>
+    intro muts eps secs pow fee hq h
+    obtain ⟨e, es⟩ := hd
+    have hq' : QNodup rest := fun e' es' h' => hq e' es' (List.mem_cons_of_mem _ h')
+    have hes : EntryNodup es := hq e es (by simp)
+    unfold collectAllFaults at h
+    by_cases hc : e ≤ faultQ
+    · simp only [hc, if_true] at h
+      cases hr : collectAllFaults faultQ rest with
+      | error err => simp [hr] at h
+      | ok x =>
+        obtain ⟨m3, e3, s3, p3, f3⟩ := x
+        simp only [hr, Except.ok.injEq, Prod.mk.injEq] at h
+        obtain ⟨rfl, _, rfl, _⟩ := h
+        obtain ⟨i1, i2⟩ := ih m3 e3 s3 p3 f3 hq' hr
+        refine ⟨?_, i2⟩
+        intro e' es' h'
+        rcases List.mem_cons.mp h' with h' | h'
+        · cases h'; exact hes
+        · exact i1 e' es' h'
+    · simp only [hc, if_false] at h
+      by_cases he : (!es.early.isEmpty) = true
+      · simp [he] at h
+      · simp only [he, Bool.false_eq_true, if_false] at h
+        cases hr : collectAllFaults faultQ rest with
+        | error err => simp [hr] at h
+        | ok x =>
+          obtain ⟨m3, e3, s3, p3, f3⟩ := x
+          simp only [hr, Except.ok.injEq, Prod.mk.injEq] at h
+          obtain ⟨rfl, _, rfl, _⟩ := h
+          obtain ⟨i1, i2⟩ := ih m3 e3 s3 p3 f3 hq' hr
+          exact ⟨i1, nodup_union hes.1 i2⟩
+
+theorem updateAll_nodup :
+    ∀ (muts : List (Int × ExpSet)) (q q' : Queue), QNodup q →
+      (∀ e es, (e, es) ∈ muts → EntryNodup es) → updateAll q muts = .ok q' → QNodup q' := by
+  intro muts
+  induction muts with
+  | nil => intro q q' hq _ h; simp [updateAll] at h; subst h; exact hq
+  | cons hd rest ih =>
+    intro q q' hq hm h
+    obtain ⟨e, es⟩ := hd
+    unfold updateAll at h
+    cases hu : mustUpdate q e es with
+    | error err => simp [hu] at h
+    | ok q1 =>
+      simp only [hu] at h
+      split at h
+      · simp at h
+      · exact ih q1 q' (mustUpdate_nodup hq (hm e es (by simp)) hu)
+          (fun e' es' h' => hm e' es' (List.mem_cons_of_mem _ h')) h
+
+theorem deleteAll_nodup (eps : List Int) : ∀ (q : Queue), QNodup q → QNodup (deleteAll q eps) := by
+  induction eps with
+  | nil => intro q hq; exact hq
+  | cons e rest ih =>
+    intro q hq
+    simp only [deleteAll, List.foldl_cons]
+    exact ih _ (qnodup_qdel hq)
+
+theorem rescheduleAllAsFaults_nodup {qs : QuantSpec} {q q' : Queue} {fe : Int} (hq : QNodup q)
+    (h : rescheduleAllAsFaults qs q fe = .ok q') : QNodup q' := by
+  unfold rescheduleAllAsFaults at h
+  cases hc : collectAllFaults (qs.quantizeUp fe) q with
+  | error e => simp [hc] at h
+  | ok x =>
+    obtain ⟨muts, eps, secs, pow, fee⟩ := x
+    simp only [hc] at h
+    obtain ⟨a1, a2⟩ := collectAllFaults_nodup _ q muts eps secs pow fee hq hc
+    cases hu : updateAll q muts with
+    | error e => simp [hu] at h
+    | ok q1 =>
+      simp only [hu] at h
+      have hq1 := updateAll_nodup muts q q1 hq a1 hu
+      by_cases he : eps.isEmpty = true
+      · simp only [he, if_true, Except.ok.injEq] at h; subst h; exact hq1
+      · simp only [he, Bool.false_eq_true, if_false] at h
+        cases ha : qadd qs q1 fe [] secs PowerPair.zero pow 0 fee with
+        | error e => simp [ha] at h
+        | ok q2 =>
+          simp only [ha, Except.ok.injEq] at h
+          subst h
+          exact deleteAll_nodup eps _ (qadd_nodup hq1 (by simp) a2 ha)
+
+end BA.Sector
